@@ -148,7 +148,7 @@ def get_cauchy_point(
     if iprint >= 99 and logger is not None:
         logger.info("---------------- CAUCHY entered-------------------")
 
-    eps_f_sec = 1e-30
+    eps_f_sec = np.finfo(float).eps
     x_cp: NDArrayFloat = x.copy()
 
     # To define the breakpoints in each coordinate direction, we compute
